@@ -284,6 +284,15 @@ def check_C13(tier, seed, t0):
                    hang_is_violation=True, extra_stages=[table], neg_models=neg)
 
 
+def check_C12(tier, seed, t0):
+    descs = ["mode=args;part=ctor;nmax=12", "mode=args;part=svd", "mode=args;part=shape", "mode=args;part=sigma", "mode=args;part=rule"]
+    own = ["AcceptsValid*", "RejectsInvalid*", "NoLeak*", "UsableAfterRejection", "UnknownRow"]
+    return ir_flow("C12", tier, seed, descs, own, [], COMMON_ASSUME[:1] + [
+        "live-heap deltas are counted by the harness' malloc/operator new interposer (alloc_guard.h)",
+        "exhaustive over the stated finite domain: n in 1..12, (nev, ncv) in [-2, n+3]^2 for 12 solver classes, SVD shapes up to 6x6, wrapper shapes up to 4x4, nine rules x two roles x seven classes"], t0,
+        trace_module="TraceArgs.tla", trace_cfg="TraceArgs.cfg", driver_of=lambda d: "drv_args", extra_cov=dict(exhaustive=True))
+
+
 def check_C18(tier, seed, t0):
     parts = 16
     if tier == "quick":
@@ -338,7 +347,7 @@ def check_C14(tier, seed, t0):
         level="fault_enumeration" if False else "model_checking")
 
 
-CHECKS = {"C03": check_C03, "C04": check_C04, "C06": check_C06, "C14": check_C14, "C18": check_C18, "C19": check_C19, "C05": check_C05, "C01": check_C01, "C02": check_C02, "C07": check_C07, "C13": check_C13}
+CHECKS = {"C12": check_C12, "C03": check_C03, "C04": check_C04, "C06": check_C06, "C14": check_C14, "C18": check_C18, "C19": check_C19, "C05": check_C05, "C01": check_C01, "C02": check_C02, "C07": check_C07, "C13": check_C13}
 
 
 def main():
